@@ -611,7 +611,17 @@ func init() {
 		}
 		// root >= 0: the item is opened; root = -(i+1): the reply collection of item i is opened as a page of its own
 		// (what ":feed" and ":open <collection>" do: switchTo(Container))
-		if root >= 0 {
+		// root = -100000: what main.go does first, State.Subcommand("open", x) on the fresh State, with the fetch held from the
+		// start (the keys begin with 262 a b p)
+		if root == -100000 {
+			r.next()
+			ha, hb, hp := r.next(), r.next(), r.next()
+			addr := fmt.Sprintf("127.77.%d.%d:%d", ha, hb, hp)
+			hold = startHold(addr)
+			if err := s.Subcommand("open", "https://"+addr+"/held"); err != nil {
+				panic("Subcommand failed: " + err.Error())
+			}
+		} else if root >= 0 {
 			s.VerifOpen(items[root])
 		} else {
 			s.VerifOpen(items[-root-1].kids)
